@@ -169,8 +169,6 @@ Proof.
 Qed.
 
 (* ---- the code as found: witnesses ---- *)
-Definition d5_only : Defects := mkDefects false false false true false.
-Definition d13_only : Defects := mkDefects false false false false true.
 
 Definition combo_pid : combo := mkCombo BHwmon SHwmon CPid true true false true.
 Definition combo_nested : combo := mkCombo BFile SFile (CFunc FMax [CLinear; CFunc FAvg [CPid]]) false false false true.
